@@ -1,6 +1,6 @@
 (** C12 — Backup never reports success for, or leaves behind, a silently partial backup.
     Statements only. *)
-From NV Require Import Base.Bytes Codec.Frame Codec.FrameProofs Codec.FileImage Codec.FileImageStmts Codec.FileImageProofs.
+From NV Require Import Base.Bytes Codec.Frame Codec.FrameProofs Codec.FileImage Codec.FileImageStmts Codec.FileImageProofs Codec.BufWriter Codec.BufWriterStmts Codec.BufWriterProofs.
 Open Scope N_scope.
 
 (** For every stored content and every point at which the process may stop — shard files holding any
@@ -19,3 +19,36 @@ Theorem C12_truncation_detected : forall crc items n, Forall (fun bs => 0 < lenN
   snd (read_shard crc 1 (firstn n (file_of crc items))) = false.
 Proof. exact truncation_detected. Qed.
 Print Assumptions C12_truncation_detected.
+
+(** Every failing write is reported.  The backup file writer (rawFileWriter over bufio.Writer, any
+    buffer size B > 0) on a file whose writes start failing at ANY byte budget (a write that does not
+    fit writes what fits and fails), for every item sequence: the file holds exactly the first
+    [budget] bytes of the complete file; Close returns nil exactly when the complete file, end marker
+    included, fits the budget; and when Close returns nil every WriteItem returned nil and the file is
+    complete.  In particular a failure that is reached only in the final Flush inside Close (the whole
+    tail of the shard was still in the buffer) is reported. *)
+Theorem C12_store_file_spec : forall (crc : list N -> N) (B budget : nat) (items : list (list N)),
+  (0 < B)%nat ->
+  let '(oks, c, file) := store_file B budget items in
+  file = firstn budget (file_of crc items) /\
+  c = (length (file_of crc items) <=? budget)%nat /\
+  (c = true -> List.Forall (fun ok => ok = true) oks /\ file = file_of crc items).
+Proof. exact store_file_spec. Qed.
+Print Assumptions C12_store_file_spec.
+
+(** errors are sticky: once a WriteItem has failed every later one fails (and so does Close) *)
+Theorem C12_errors_sticky : forall (B budget : nat) (items : list (list N)) (i j : nat),
+  (0 < B)%nat -> (i <= j)%nat ->
+  let '(oks, _, _) := store_file B budget items in
+  nth i oks true = false -> (j < length oks)%nat -> nth j oks true = false.
+Proof. exact errors_sticky. Qed.
+Print Assumptions C12_errors_sticky.
+
+(** regression witness (seed S56): a Close that does not look at the result of the final Flush reports
+    success for a truncated file *)
+Theorem C12_noflushcheck_refuted : exists B budget items,
+  let '(w, _) := write_items_b B budget bw0 items in
+  let '(w', c) := close_b_noflushcheck B budget w in
+  c = true /\ f_out w' <> file_of (fun _ => 0) items.
+Proof. exact noflushcheck_refuted. Qed.
+Print Assumptions C12_noflushcheck_refuted.
